@@ -74,6 +74,8 @@ def run_variant(args):
             except SyntaxError as e:
                 return (v['id'], 'error', ['variant does not compile: %s' % e])
         rdefs.reset_cache()
+        from . import normalize as _nz
+        _nz.reset()
         fired = set()
         errs = []
         try:
